@@ -106,7 +106,7 @@ func NewProxy(s *server) elton.Handler {
 		}
 
 		reqHeader := c.Request.Header
-		var ifModifiedSince, ifNoneMatch string
+		var ifModifiedSince, ifNoneMatch, rangeValue, ifRange string
 		status := getCacheStatus(c)
 		// 针对fetching的请求，由于其最终状态未知，因此需要删除有可能导致304的请求，避免无法生成缓存
 		if status == cache.StatusFetching {
@@ -117,6 +117,16 @@ func NewProxy(s *server) elton.Handler {
 			}
 			if ifNoneMatch != "" {
 				reqHeader.Del(elton.HeaderIfNoneMatch)
+			}
+			// range请求会导致upstream返回部分数据(206)，该响应不可作为完整的缓存，
+			// 因此也需要删除，获取完整的响应
+			rangeValue = reqHeader.Get(headerRange)
+			ifRange = reqHeader.Get(headerIfRange)
+			if rangeValue != "" {
+				reqHeader.Del(headerRange)
+			}
+			if ifRange != "" {
+				reqHeader.Del(headerIfRange)
 			}
 		}
 
@@ -170,6 +180,12 @@ func NewProxy(s *server) elton.Handler {
 		}
 		if ifNoneMatch != "" {
 			reqHeader.Set(elton.HeaderIfNoneMatch, ifNoneMatch)
+		}
+		if rangeValue != "" {
+			reqHeader.Set(headerRange, rangeValue)
+		}
+		if ifRange != "" {
+			reqHeader.Set(headerIfRange, ifRange)
 		}
 		if acceptEncodingChanged {
 			reqHeader.Set(elton.HeaderAcceptEncoding, acceptEncoding)
